@@ -111,7 +111,8 @@ def cellVal : List ((Nat × Nat) × Nat) → Nat → Nat → Nat
   | ((k', o'), v) :: rest, k, o => if k' = k ∧ o' = o then v else cellVal rest k o
 
 def DevSt.dev (d : DevSt) : Dev :=
-  { val := cellVal d.set, bad := fun k o => d.badCells.any fun c => c.1 == k && c.2 == o }
+  -- (a Modbus device has 65536 cells of each kind: anything beyond is an illegal data address)
+  { val := cellVal d.set, bad := fun k o => decide (65536 ≤ o) || d.badCells.any fun c => c.1 == k && c.2 == o }
 
 def DevSt.put (d : DevSt) (k off : Nat) (vals : List Nat) : DevSt :=
   { d with set := ((List.range vals.length).zip vals).reverse.map (fun iv => ((k, off + iv.1), iv.2)) ++ d.set }
